@@ -24,14 +24,20 @@
   * `C07_after_verified_tsig` — whenever the TSIG step authenticates, the *same* decision table
     (`endVerdict`, by `specTail_done` literally the table of `specScanWith`) is applied, and for
     NOTIMP / REFUSED / SERVFAIL the response is `finish` of the writer the TSIG step left with only
-    the RCODE set: no record is added by the dispatch.
-  Partial in one respect (stated in `C07_full`): for those authenticated requests the theorem is about
-  the writer *state* handed to `finish`; the octets of a response that `finish` completes with a
-  TSIG record (that the RR is emitted last and nothing else changes) are C10's / C12's gap and are not
-  proved here.  For all other requests the theorems are octet-exact.
+    the RCODE set;
+  * `C07_signed_response` — and on the octets: the response exists, has exactly that RCODE, ANCOUNT =
+    NSCOUNT = 0, AA and TC clear, ARCOUNT = (OPT ? 2 : 1), and after the question nothing but the OPT
+    record (iff the scan reached one) followed by the TSIG record (TYPE 250, CLASS ANY, TTL 0, RDATA per
+    RFC 8945 §4.2, MAC over exactly the octets before it), which is last (`Proofs/FinishTsig`,
+    `Proofs/ServerSigned`: `finish` read backwards in every compression mode).
+  `theorem C07 : C07_full` — both halves.  The one thing the octet statement leaves symbolic is the
+  TSIG record's owner: it is the key name as `write_hinted_name` wrote it, literally or as a literal
+  prefix plus a compression pointer (`NameShape`); that a compressed owner *decodes* to the key name
+  is the writer's compression theorem (C12/C13), not restated here.
 -/
 import QV.Proofs.ServerProps
 import QV.Proofs.ScanTsigCont
+import QV.Proofs.ServerSigned
 import QV.Properties.C22
 
 namespace QV.C07
@@ -46,15 +52,28 @@ structure NoData (p : Nat) (sc : Scan) (b : Bytes) : Prop where
   aa : hdr b 2 / 1024 % 2 = 0
   tc : hdr b 2 / 512 % 2 = 0
 
-/-- C07 at full strength (every request, including TSIG-signed ones) -/
+/-- C07 at full strength: unsigned requests (the verdict of the scan is one of the three), and
+    TSIG-signed requests that the TSIG step authenticates (the same decision table, applied after the
+    TSIG record).  Requests that fail authentication get NOTAUTH / FORMERR from the TSIG step: C10. -/
 def C07_full : Prop :=
   ∀ (cfg : Server.Cfg) (tr : Server.Transport) (now bufLen : Nat) (req : Bytes),
     minBuf tr cfg.payload ≤ bufLen → 512 ≤ cfg.payload → req.size ≤ Rdata.USIZE_MAX →
-    ∀ v, (v = Verdict.notImp ∨ v = .refused ∨ v = .servFailZone) →
-      -- the verdict of the scan, where a verified TSIG counts as "the scan goes on"
+    (∀ v, (v = Verdict.notImp ∨ v = .refused ∨ v = .servFailZone) →
+      (specScanWith (catKind cfg) cfg.payload req).respond = true →
       (specScanWith (catKind cfg) cfg.payload req).verdict = v →
       ∃ b, Server.handleMessage cfg tr now bufLen req = .ok (some b) ∧
-        hdr b 2 % 16 = (verdictRcode v).1 ∧ NoData cfg.payload (specScanWith (catKind cfg) cfg.payload req) b
+        hdr b 2 % 16 = (verdictRcode v).1 ∧ NoData cfg.payload (specScanWith (catKind cfg) cfg.payload req) b) ∧
+    -- signed requests (well-formed configuration, clock below 2^48 s: C01's hypotheses)
+    (ServerSafety.CfgWF cfg → now < 2^48 →
+      (specScanWith (catKind cfg) cfg.payload req).respond = true →
+      (specScanWith (catKind cfg) cfg.payload req).verdict = .tsigReached →
+      ∃ (t : Tsig.ReadTsigRr) (mw : Bytes) (r' : Reader.Reader), r'.octets = req ∧ r'.cursor ≤ req.size ∧
+        ∀ r'' S, Server.tsigAfter cfg now t mw r' (preTsigState cfg tr bufLen req) = (.ok (some r''), S) →
+        ∀ v, (v = Verdict.notImp ∨ v = .refused ∨ v = .servFailZone) →
+          endVerdict (catKind cfg) req.size (specScanWith (catKind cfg) cfg.payload req).question
+            r'.cursor ((req.getD 2 0).toNat / 8 % 16) = v →
+          ∃ b, Server.handleMessage cfg tr now bufLen req = .ok (some b) ∧
+            SignedNoData cfg.payload (specScanWith (catKind cfg) cfg.payload req) (verdictRcode v).1 b)
 
 /-! ### the decision table -/
 
@@ -125,6 +144,28 @@ theorem C07_after_verified_tsig (cfg : Server.Cfg) (tr : Server.Transport) (now 
   rw [this, hev]
   rcases hvv with rfl | rfl | rfl <;> rfl
 
+/-- **Theorem (signed requests, on the octets).** For a request whose scan reaches a well-formed
+    TSIG record: if the TSIG step authenticates it and the decision table gives NOTIMP, REFUSED or
+    SERVFAIL-for-a-zone-not-loaded, the server responds with exactly that RCODE, no answer or
+    authority records, AA and TC clear, and after the question only the OPT record (iff the scan
+    reached one) and the TSIG record, which is last. -/
+theorem C07_signed_response (cfg : Server.Cfg) (hcfg : ServerSafety.CfgWF cfg) (tr : Server.Transport)
+    (now bufLen : Nat) (req : Bytes)
+    (hbuf : minBuf tr cfg.payload ≤ bufLen) (hpay : 512 ≤ cfg.payload) (hreq : req.size ≤ Rdata.USIZE_MAX)
+    (hnow : now < 2^48)
+    (hr : (specScanWith (catKind cfg) cfg.payload req).respond = true)
+    (hv : (specScanWith (catKind cfg) cfg.payload req).verdict = .tsigReached) :
+    ∃ (t : Tsig.ReadTsigRr) (mw : Bytes) (r' : Reader.Reader), r'.octets = req ∧ r'.cursor ≤ req.size ∧
+      ∀ r'' S, Server.tsigAfter cfg now t mw r' (preTsigState cfg tr bufLen req) = (.ok (some r''), S) →
+      ∀ v, (v = Verdict.notImp ∨ v = .refused ∨ v = .servFailZone) →
+        endVerdict (catKind cfg) req.size (specScanWith (catKind cfg) cfg.payload req).question
+          r'.cursor ((req.getD 2 0).toNat / 8 % 16) = v →
+        ∃ b, Server.handleMessage cfg tr now bufLen req = .ok (some b) ∧
+          SignedNoData cfg.payload (specScanWith (catKind cfg) cfg.payload req) (verdictRcode v).1 b := by
+  obtain ⟨t, mw, r', h1, h2, h3⟩ := signed_noData_full cfg hcfg tr now bufLen req hbuf hpay hreq hnow hr hv
+  exact ⟨t, mw, r', h1, h2, fun r'' S hT v hvv hev =>
+    h3 r'' S hT v (by rcases hvv with h | h | h <;> simp [h]) hev⟩
+
 /-! ### the catalog entry used -/
 
 /-- the history of catalog operations that builds the server's catalog: one insert per entry -/
@@ -144,6 +185,16 @@ theorem C07_catalog_longest (cfg : Server.Cfg) (qn : Writer.WName) (qclass : Nat
       (Spec.Catalog.foldName qn.labels) (Catalog.lookup (Server.mkCatalog cfg.zones) qn.labels qclass) := by
   rw [mkCatalog_eq_run]
   exact C22.C22_lookup_longest (catOps cfg.zones) qn.labels qclass
+
+/-! ### C07 -/
+
+/-- **C07 holds at full strength.** -/
+theorem C07 : C07_full := by
+  intro cfg tr now bufLen req hbuf hpay hreq
+  refine ⟨fun v hvv hr hsv => ?_, fun hcfg hnow hr hv =>
+    C07_signed_response cfg hcfg tr now bufLen req hbuf hpay hreq hnow hr hv⟩
+  obtain ⟨b, hb, _, h2, h3⟩ := C07_response cfg tr now bufLen req hbuf hpay hreq hr v hvv hsv
+  exact ⟨b, hb, h2, h3⟩
 
 /-! ### non-vacuity -/
 
